@@ -309,6 +309,8 @@ pub fn run_matrix(tier: &str, seed: u64, out: &mut Out) {
     // through top-level fields: the script path travels in the 5th argument of R.r, at creation, in tree updates and in the
     // binding-map updaters alike
     loop_templates.push("<wxs module=\"inl\">exports.o = {g: function inl_o_g(){}, k: function inl_o_k(){}}; exports.h = function inl_h(){}</wxs><v bindselect=\"{{ inl.o[d ? 'g' : 'k'] }}\" catch-close=\"{{ a ? inl.h : inl.o.g }}\" on-x=\"{{ inl.h }}\" bindtap=\"{{ a ? inl.o.k : inl.h }}\"/>");
+    // a negated condition selects the other branch: value and path must agree
+    loop_templates.push("<v model:value=\"{{ !d ? g[0].name : k[0].name }}\" model:w=\"{{ !a ? k[0].title : g[0].title }}\"/><block wx:for=\"{{ !a ? g : k }}\"><v model:value=\"{{ item.name }}\" model:t=\"{{ !d ? item.title : item.name }}\"/></block>");
     // the loop index is not assignable: no path for it, alone, in a chain, as the taken branch of a conditional, nested, and
     // for lists of a script module (where event / change: bindings carry the script path)
     loop_templates.push("<block wx:for=\"{{ g }}\"><v model:value=\"{{ index }}\" model:w=\"{{ d ? index : item.name }}\" bind:tap=\"{{ index }}\" change:p=\"{{ index }}\"/><block wx:for=\"{{ item.members }}\" wx:for-item=\"mm\" wx:for-index=\"mi\"><v model:value=\"{{ mi }}\" model:w=\"{{ index }}\" model:u=\"{{ a ? mi : mm.name }}\"/></block></block>");
